@@ -557,3 +557,54 @@ for op, extra in (("push", [DATA]), ("pop", []), ("front", []), ("reset", []), (
         con.cases.append(c)
 for _n in ("_prev_index", "_next_index"):
     I.register_inline(Stack.__dict__[_n])
+
+
+# ---- Fifo.receive: wait until the fifo is not empty AS SEEN FROM THE CALLING CONTEXT, then pop ----------------------------------
+# With delays configured the raw signal `_empty` compares the index copies of the two sides; only the flag query `empty()`
+# (per-context comparison, contracts above) is right for the consumer.  receive() waits on exactly that query -- otherwise it
+# keeps popping from a fifo that has just run empty (elements invented or duplicated).
+def receive_spec(sx, self, **kw):
+    it = sx.it
+
+    def holds(res):
+        if res != "POPPED" or len(it.awaited) != 1 or it.order != ["empty()", "await", "pop"]:
+            return False
+        if it.pop_kw.get("qualifier") is not kw.get("qualifier", SU.Value):
+            return False
+        return sym.eq(it.awaited[0], sym.Not(it.query_result))
+
+    return C.Pred(holds, "awaits `not self.empty()` (the flag query of the calling context), then returns pop(qualifier=...)")
+
+
+def _empty_query(it, self):
+    it.order.append("empty()")
+    return it.query_result
+
+
+def _pop(it, self, **kw):
+    it.order.append("pop")
+    it.pop_kw = dict(kw)
+    return "POPPED"
+
+
+def _await(it, v, node=None):
+    it.order.append("await")
+    it.awaited.append(v)
+    return None
+
+
+con = contract("cohdl.std.utility:Fifo.receive", PROPS)
+for qual in (None, "QUALIFIER"):
+    c = Case("default-qualifier" if qual is None else "given-qualifier", [Built([], lambda env: SObj(Fifo, _empty=None), lambda a: "<fifo>", lambda a: None)], receive_spec,
+             kwargs={} if qual is None else {"qualifier": Built([], lambda env: "QUALIFIER", lambda a: "'QUALIFIER'", lambda a: None)})
+    c.native = False
+    c.models = [(Fifo.__dict__["empty"], _empty_query), (Fifo.__dict__["pop"], _pop), (SU.expr, lambda it, x: x)]
+    c.interp_flags = {"await_hook": _await}
+
+    def _rx_setup(it, ctx, args, env):
+        it.order, it.awaited, it.pop_kw = [], [], {}
+        it.query_result = ctx.fresh_bool("empty_as_seen_by_this_context")
+        args[0].fields["_empty"] = ctx.fresh_bool("raw_empty_signal")
+
+    c.setup = _rx_setup
+    con.cases.append(c)
